@@ -832,6 +832,13 @@ func (e *Env) callExpr(ex *ast.CallExpr) (SVal, error) {
 		return mkBool(boolLit(v.K == KLoc && strings.HasPrefix(v.Loc, "new#"))), nil
 	case "called":
 		pat := e.resolveEventName(argStr(0))
+		if os.Getenv("ROVC_DEBUG") == "2" {
+			var ns []string
+			for _, ev := range e.Events {
+				ns = append(ns, ev.Name)
+			}
+			fmt.Fprintf(os.Stderr, "CALLED %s in [%s]\n", pat, strings.Join(ns, " "))
+		}
 		for _, ev := range e.Events {
 			if eventNameMatch(pat, ev.Name) {
 				return mkBool("true"), nil
